@@ -67,7 +67,7 @@ def check(case):
         base += '|after-stable-state'
     ar = o.arith
     from ..exact import frac
-    q = frac(o.record['quota'])
+    q = common.header_quota(o)
     kb = model.kept_ballots(case)
     n = sum(m for m, _ in kb)
     el = model.eligible(case)
